@@ -844,6 +844,7 @@ class Interp:
                 if err[0] == 'other' and isinstance(e, RuntimeError) and hasattr(e, 'result'):
                     err = ('leak', e.result)
             _tls.nested_end.pop()
+            returned = len(inner.log)        # what is logged from here on happens after the nested run() has returned
             # later entries stem from closing abandoned coroutines
             seen = ended[0] if ended else len(inner.log)
             # (like a program would, the harness simply lets go of the nested simulation's activities)
@@ -851,7 +852,8 @@ class Interp:
             self.nested.append((st.get('id'), [tuple(x[1:6]) for x in inner.log[:seen]], err))
             if not hasattr(self, 'nested_objs'):
                 self.nested_objs = []
-            self.nested_objs.append((inner, seen))
+            # (only its log is kept: the nested simulation's objects go out of scope like a program's would)
+            self.nested_objs.append((inner.log, returned))
             ev(name, idx, 'nested_end', err)
         elif op == 'gc_collect':
             import gc as _gc
